@@ -155,7 +155,8 @@ def run(chk):
                            f"{inst}: the value is not sum_i c_i [F_i(logxmax) - {w} * F_i(logxmin)] with F_i the antiderivative of "
                            f"t^i exp(N(t - logx))", where=fl.where, instance=inst, data={"witness": info}, how="PE + PIT F_p")
     # two areas add up
-    pe = PE(src, assume=lambda text, env: False if ("logx >= " in text or "logx - " in text or "abs(umax)" in text) else None)
+    below = {"logxmin": Fraction(-2), "logxmax": Fraction(-1), "_atol_eps": EPS, "logx": Fraction(-3)}
+    pe = PE(src, assume=lambda text, env: False if "abs(umax)" in text else _decide(" ".join(text.split()), below))
     pe.ext["numpy.finfo"] = lambda p, a, k: SimpleNamespace(eps=EPS)
     a2 = Arr.from_nested([[lo, hi, dag.sym("c0"), dag.sym("c1")], [hi, dag.sym("lmax2"), dag.sym("d0"), dag.sym("d1")]])
     res = pe.call(fl.qname, [N, logx, a2])
